@@ -407,20 +407,27 @@ pub fn run(ctx: &Ctx) -> Report {
         }
     }
     // searches during which the GUI keeps asking isready (readyok lines interleave with info lines)
-    if ctx.shard_index() >= 2 {
-        let fens = [Pos::startpos().to_fen(), "8/8/8/3k4/8/3K4/8/8 w - - 0 1".to_string(), "r3k2r/p1ppqpb1/bn2pnp1/3PN3/1p2P3/2N2Q1p/PPPBBPPP/R3K2R w KQkq - 0 1".to_string()];
-        let fen = &fens[ctx.shard_index() % 3];
-        let go = ["go depth 60", "go movetime 400", "go depth 5"][ctx.shard_index() % 3];
-        let depth_only = if go == "go depth 5" { Some(5) } else { None };
-        // bare kings: 'go depth 60' finishes at once and prints 60 info lines while 2000 isready arrive
-        let st = StepSpec { flood: ctx.tier.pick(2000, 20_000), position: format!("position fen {fen}"), fen_after: fen.clone(), go: go.into(), depth_only, deadline_ms: 120_000 };
-        if go != "go depth 60" || fen.starts_with("8/8/8/3k4") {
-            if let Err(v) = run_steps(ctx, &[st], &mut rep) {
-                if let Some(k) = ctx.is_known(&v.sig) {
-                    rep.known(&v.sig, &k.text);
-                } else {
-                    rep.violation(v);
-                }
+    {
+        let kk = "8/8/8/3k4/8/3K4/8/8 w - - 0 1".to_string();
+        let kiwi = "r3k2r/p1ppqpb1/bn2pnp1/3PN3/1p2P3/2N2Q1p/PPPBBPPP/R3K2R w KQkq - 0 1".to_string();
+        // bare kings: 'go depth 60/100' finishes at once and prints that many info lines while the isready lines arrive
+        let plan: [(String, &str, Option<u64>); 8] = [
+            (kk.clone(), "go depth 60", Some(60)),
+            (kk.clone(), "go movetime 400", None),
+            (kiwi.clone(), "go depth 5", Some(5)),
+            (Pos::startpos().to_fen(), "go movetime 400", None),
+            (Pos::startpos().to_fen(), "go depth 5", Some(5)),
+            (kk.clone(), "go depth 100", Some(100)),
+            (kiwi, "go movetime 300", None),
+            (kk, "go nodes 200000", None),
+        ];
+        let (fen, go, depth_only) = &plan[ctx.shard_index() % 8];
+        let st = StepSpec { flood: ctx.tier.pick(2000, 20_000), position: format!("position fen {fen}"), fen_after: fen.clone(), go: go.to_string(), depth_only: *depth_only, deadline_ms: 120_000 };
+        if let Err(v) = run_steps(ctx, &[st], &mut rep) {
+            if let Some(k) = ctx.is_known(&v.sig) {
+                rep.known(&v.sig, &k.text);
+            } else {
+                rep.violation(v);
             }
         }
     }
